@@ -47,10 +47,15 @@ def width_of(e):
                 w = int(wd)
                 return (len(pre) + w + len(post), "name", nl, [("lit", 0, len(pre), pre), ("name", len(pre), len(pre) + w, "")])
             if conv == "E":
-                # [sign or space] d . ddddd E [+-] dd   -> 1 + 1 + 1 + prec + 4
-                w = max(int(wd), (1 if sp else 0) + 2 + int(prec or 6) + 4)
-                return (len(pre) + w + len(post), "num", nl, [("num", len(pre), len(pre) + w, "")])
+                # [sign or space] d . ddddd E [+-] dd[d]: the exponent of a double has two or three digits, so the
+                # width of a bare %E field is not fixed - the field is marked 'num!' and rejected by R1
+                ws = {max(int(wd), (1 if sp else 0) + 2 + int(prec or 6) + 2 + e_) for e_ in (2, 3)}
+                w = min(ws)
+                return (len(pre) + w + len(post), "num" if len(ws) == 1 else "num!", nl, [("num" if len(ws) == 1 else "num!", len(pre), len(pre) + w, "")])
         return (None, "mix", nl, [])
+    if isinstance(e, ast.Call) and isinstance(e.func, ast.Name) and e.func.id in NUM_HELPERS:
+        w = NUM_HELPERS[e.func.id]
+        return (w, "num", False, [("num", 0, w, "")])
     if isinstance(e, ast.BinOp) and isinstance(e.op, ast.Add):
         l, r = width_of(e.left), width_of(e.right)
         if l[0] is None or r[0] is None:
@@ -58,6 +63,73 @@ def width_of(e):
         fields = list(l[3]) + [(k, a + l[0], b + l[0], t) for k, a, b, t in r[3]]
         return (l[0] + r[0], "mix", r[2], fields)
     return (None, "mix", False, [])
+
+
+NUM_HELPERS = {}      # helper name -> fixed width of the string it returns (filled by helper_widths)
+
+
+def _fmt_e_width(fmt, e_digits):
+    import re
+    m = re.fullmatch(r"%( ?)(\d+)(?:\.(\d+))?E", fmt)
+    if not m:
+        return None
+    sp, wd, prec = m.groups()
+    return max(int(wd), (1 if sp else 0) + 2 + int(prec or 6) + 2 + e_digits)
+
+
+def helper_widths(mod):
+    """Module-level helpers `def h(a): s = FMT1 % a; if len(s) > N: s = FMT2 % a; return s`:
+    evaluate the length of the result for exponents of two and three digits; a helper whose
+    result has one width in both cases is a fixed-width number formatter."""
+    out = {}
+    for q, fn in mod.funcs.items():
+        if "." in q or len(pf.arg_names(fn)) != 1:
+            continue
+        a = pf.arg_names(fn)[0]
+        results = set()
+        ok = True
+        for e_ in (2, 3):
+            env = {}
+            ret = [None]
+
+            def run(stmts):
+                for s in stmts:
+                    if ret[0] is not None:
+                        return
+                    if isinstance(s, ast.Expr) and isinstance(s.value, ast.Constant):
+                        continue
+                    if isinstance(s, ast.Assign) and len(s.targets) == 1 and isinstance(s.targets[0], ast.Name) and isinstance(s.value, ast.BinOp) \
+                            and isinstance(s.value.op, ast.Mod) and isinstance(s.value.left, ast.Constant) and isinstance(s.value.left.value, str) \
+                            and isinstance(s.value.right, ast.Name) and s.value.right.id == a:
+                        wv = _fmt_e_width(s.value.left.value, e_)
+                        if wv is None:
+                            raise ValueError
+                        env[s.targets[0].id] = wv
+                    elif isinstance(s, ast.If) and isinstance(s.test, ast.Compare) and len(s.test.ops) == 1 and isinstance(s.test.left, ast.Call) \
+                            and isinstance(s.test.left.func, ast.Name) and s.test.left.func.id == "len" and isinstance(s.test.left.args[0], ast.Name) \
+                            and s.test.left.args[0].id in env and isinstance(s.test.comparators[0], ast.Constant):
+                        l_, r_ = env[s.test.left.args[0].id], s.test.comparators[0].value
+                        op = s.test.ops[0]
+                        val = {ast.Gt: l_ > r_, ast.GtE: l_ >= r_, ast.Lt: l_ < r_, ast.LtE: l_ <= r_, ast.Eq: l_ == r_, ast.NotEq: l_ != r_}.get(type(op))
+                        if val is None:
+                            raise ValueError
+                        run(s.body if val else s.orelse)
+                    elif isinstance(s, ast.Return) and isinstance(s.value, ast.Name) and s.value.id in env:
+                        ret[0] = env[s.value.id]
+                    else:
+                        raise ValueError
+            try:
+                run(fn.body)
+            except ValueError:
+                ok = False
+                break
+            if ret[0] is None:
+                ok = False
+                break
+            results.add(ret[0])
+        if ok and len(results) == 1:
+            out[q] = results.pop()
+    return out
 
 
 def records_of(fn):
@@ -249,6 +321,10 @@ def build(tier, repo):
     fromfile = w.func("modeling", "op.fromfile")
 
     r1 = chk.rule("C14-R1", "writer's fields sit exactly on MPS fields; reader slices exactly the MPS fields", "the file written is read back field by field")
+    NUM_HELPERS.clear()
+    NUM_HELPERS.update(helper_widths(m))
+    for hn, hw in sorted(NUM_HELPERS.items()):
+        r1.ok("helper %s returns a string of fixed width %d (two- and three-digit exponents)" % (hn, hw), m.where(m.funcs[hn], m.funcs[hn]))
     recs = records_of(tofile)
     nfields = 0
     for section, fields in recs:
@@ -256,8 +332,13 @@ def build(tier, repo):
             if kind == "lit":
                 continue
             nfields += 1
-            key = "tofile:%s record:%s field at columns %d-%d" % (section, kind, a + 1, b)
-            if (a, b) in MPS_FIELDS:
+            key = "tofile:%s record:%s field at columns %d-%d" % (section, kind.rstrip("!"), a + 1, b)
+            if kind == "num!":
+                r1.violation(key, m.where(node, tofile),
+                             "a number is written with a bare %E conversion: for an exponent of three digits (|x| >= 1e100 or < 1e-99) the text is one "
+                             "column wider than the 12-column MPS number field and the reader cuts the last exponent digit off (1e100 is read as 1e10)",
+                             "a fixed-width formatter", (a, b + 1))
+            elif (a, b) in MPS_FIELDS:
                 r1.ok(key, m.where(node, tofile), MPS_FIELDS[(a, b)])
             else:
                 r1.violation(key, m.where(node, tofile),
@@ -453,4 +534,99 @@ def build(tier, repo):
         r5.ok("_islp tests objective and both constraint lists", m.where(islp, islp))
     else:
         r5.violation("_islp tests objective and both constraint lists", m.where(islp, islp), "_islp does not look at all parts of the problem", "objective, inequalities, equalities", "partial")
+    # ---- round 5 -------------------------------------------------------------------------
+    r6 = chk.rule("C14-R6", "every variable component gets at least one COLUMNS record (it is listed under BOUNDS)",
+                  "tofile then fromfile yields the same number of variables")
+    comp_loops = []
+    sec = [None]
+
+    def scan(stmts):
+        for s in stmts:
+            if isinstance(s, ast.Expr) and isinstance(s.value, ast.Call) and pf.call_name(s.value) == "f.write" and s.value.args \
+                    and isinstance(s.value.args[0], ast.Constant) and isinstance(s.value.args[0].value, str) and s.value.args[0].value.strip().isupper():
+                sec[0] = s.value.args[0].value.strip()
+            elif isinstance(s, ast.For):
+                it = ast.unparse(s.iter)
+                if sec[0] == "COLUMNS" and re.fullmatch(r"range\(len\(v\)\)", it):
+                    comp_loops.append(s)
+                scan(s.body)
+            elif isinstance(s, ast.If):
+                scan(s.body)
+                scan(s.orelse)
+    import re
+    scan(tofile.body)
+
+    def must_write(stmts):
+        """does every path through stmts execute an f.write(..)?"""
+        for s in stmts:
+            if isinstance(s, ast.Expr) and isinstance(s.value, ast.Call) and pf.call_name(s.value) == "f.write":
+                return True
+            if isinstance(s, ast.If) and s.orelse and must_write(s.body) and must_write(s.orelse):
+                return True
+        return False
+    for lp in comp_loops:
+        key = "tofile:COLUMNS loop over the components of a variable always writes a record"
+        body_txt = ast.unparse(lp)
+        tell = re.search(r"(\w+) = f\.tell\(\)", body_txt)
+        fallback = tell and any(isinstance(s, ast.If) and re.fullmatch(r"f\.tell\(\) == %s" % tell.group(1), ast.unparse(s.test)) and must_write(s.body)
+                                for s in lp.body)
+        if must_write(lp.body):
+            r6.ok(key, m.where(lp, tofile), "unconditional record")
+        elif fallback:
+            r6.ok(key, m.where(lp, tofile), "`if f.tell() == %s:` writes an explicit zero entry when nothing was written" % tell.group(1))
+        else:
+            r6.violation(key, m.where(lp, tofile),
+                         "every record of the COLUMNS loop is guarded by a test that the coefficient is nonzero: a component whose coefficients are all "
+                         "zero is written under BOUNDS only, and fromfile rejects the file (unknown column label)",
+                         "an explicit zero entry when nothing was written", "all writes conditional")
+    r6.require(1)
+
+    r7 = chk.rule("C14-R7", "every row type the reader accepts in ROWS registers the row label on every path",
+                  "fromfile builds exactly the constraints the format defines (entries of free rows are read and ignored)")
+    nreg = 0
+
+    def assigns_functions(stmts):
+        for s in stmts:
+            if isinstance(s, ast.Assign) and any(ast.unparse(t_).startswith("functions[") for t_ in s.targets):
+                return True
+            if isinstance(s, ast.If) and s.orelse and assigns_functions(s.body) and assigns_functions(s.orelse):
+                return True
+            if isinstance(s, ast.Raise):
+                return True
+        return False
+    for n_ in ast.walk(fromfile):
+        if isinstance(n_, ast.While) and "COLUMNS" in ast.unparse(n_.test):
+          for arm in [s_ for s_ in n_.body if isinstance(s_, ast.If)]:
+            while isinstance(arm, ast.If):
+                tt = ast.unparse(arm.test)
+                if "s[1:3]" in tt:
+                    nreg += 1
+                    key = "fromfile:ROWS arm `%s` registers the label" % tt[:50]
+                    if assigns_functions(arm.body):
+                        r7.ok(key, m.where(arm, fromfile))
+                    else:
+                        r7.violation(key, m.where(arm, fromfile),
+                                     "a row of this type is accepted but its label is not entered in `functions` on every path: a later COLUMNS / RHS "
+                                     "entry of that row raises KeyError for a well-formed file", "functions[rowlabel] = .. on every path", tt[:60])
+                arm = arm.orelse[0] if len(arm.orelse) == 1 else None
+    chk.note_analysed("rows_arms", nreg)
+    r7.require(2)
+
+    r8 = chk.rule("C14-R8", "tofile refuses colliding labels before the file is opened; the test uses the label expression that is written",
+                  "distinct names give distinct rows and columns (or a refusal), never a silently merged row")
+    opens = [s for s in pf.stmts_of(tofile) if isinstance(s, ast.Assign) and isinstance(s.value, ast.Call) and pf.call_name(s.value) == "open"]
+    label_rx = r"\w+\[:7 - len\(str\((\w+)\)\)\] \+ '_' \+ str\(\1\)"
+    written = [n_ for n_ in pf.stmts_of(tofile) if isinstance(n_, ast.Assign) and re.search(label_rx, ast.unparse(n_.value)) and opens and n_.lineno > opens[0].lineno]
+    tested = [n_ for n_ in pf.stmts_of(tofile) if opens and n_.lineno < opens[0].lineno and re.search(label_rx, ast.unparse(n_))]
+    raises = [n_ for n_ in pf._scope_nodes(tofile) if isinstance(n_, ast.Raise) and opens and n_.lineno < opens[0].lineno
+              and any("len(set(" in repr(c_) or "set(" in repr(c_) for c_ in pf.path_condition(n_, cross_loops=True))]
+    key = "tofile:labels are tested for collisions before open()"
+    if written and tested and raises:
+        r8.ok(key, m.where(raises[0], tofile), "%d label expressions written, collision test + raise before open()" % len(written))
+    else:
+        r8.violation(key, m.where(tofile, tofile),
+                     "labels are the first characters of the name plus '_i': distinct names with a common prefix get the same label and the file "
+                     "written merges their rows / cannot be read back; no collision test precedes open()",
+                     "raise ValueError when len(set(labels)) < len(labels)", "absent")
+    r8.require(1)
     return chk
